@@ -173,7 +173,12 @@ func universeShort(rng *rand.Rand, nbits, size int) [][]byte {
 
 // ---------- guarded calls ----------
 
-var watchdog = 120 * time.Second // generous; firing is INCONCLUSIVE, never a verdict
+var watchdog = func() time.Duration { // generous; firing is INCONCLUSIVE, never a verdict
+	if v, err := time.ParseDuration(os.Getenv("VERIF_C16_WATCHDOG")); err == nil && v > 0 {
+		return v
+	}
+	return 120 * time.Second
+}()
 var aborted atomic.Bool          // set when a call did not return: remaining cases are skipped
 
 type pinfo struct {
@@ -661,10 +666,17 @@ func (e *env) adversarial(t *tctx, rng *rand.Rand, subj subject, uni [][]byte, s
 	own := []claim{{key: subj.key, val: []byte("some-other-value"), member: true, label: "own-key-member-wrong-value"}}
 	if subj.present {
 		own = append(own, claim{key: subj.key, member: false, label: "own-key-nonmember"},
-			claim{key: subj.key, val: nil, member: true, label: "own-key-member-nil-value"})
+			claim{key: subj.key, val: nil, member: true, label: "own-key-member-nil-value"},
+			claim{key: subj.key, val: subj.val, member: false, label: "own-key-nonmember-passing-the-real-value"})
 	}
 	for _, c := range own {
 		e.verify(t, subj.proof, c, "honest-own-key", "")
+	}
+	if subj.present {
+		// wrong values whose hash agrees with the real value's hash in the first / the last byte
+		for _, c := range nearValues(subj) {
+			e.verify(t, subj.proof, c, "honest-own-key", "")
+		}
 	}
 	// (2) the proof as generated, for claims about other keys
 	bs := nb
@@ -716,6 +728,23 @@ func (e *env) adversarial(t *tctx, rng *rand.Rand, subj subject, uni [][]byte, s
 			e.verify(t, m.proof, c, m.shape, m.detail)
 		}
 	}
+}
+
+func nearValues(subj subject) []claim {
+	want := sha256.Sum256(subj.val)
+	var first, last []byte
+	for i := 0; i < 1<<16 && (first == nil || last == nil); i++ {
+		v := []byte(fmt.Sprintf("%s#%d", subj.val, i))
+		h := sha256.Sum256(v)
+		if first == nil && h[0] == want[0] {
+			first = v
+		}
+		if last == nil && h[31] == want[31] {
+			last = v
+		}
+	}
+	return []claim{{key: subj.key, val: first, member: true, label: "own-key-member-wrong-value-same-first-hash-byte"},
+		{key: subj.key, val: last, member: true, label: "own-key-member-wrong-value-same-last-hash-byte"}}
 }
 
 // otherVersion presents a proof generated at an earlier root against the current root.
@@ -1182,14 +1211,14 @@ func liveStoreProbe(t *testing.T, run *core.Run) {
 
 func caseNames() []string {
 	var names []string
-	for i := 0; i < core.Pick(18, 600); i++ {
-		names = append(names, fmt.Sprintf("tiny/%d", i))
+	for i := 0; i < core.Pick(18, 200); i++ {
+		names = append(names, fmt.Sprintf("tiny/%04d", i))
 	}
-	for i := 0; i < core.Pick(14, 2400); i++ {
-		names = append(names, fmt.Sprintf("smt/%d", i))
+	for i := 0; i < core.Pick(14, 400); i++ {
+		names = append(names, fmt.Sprintf("smt/%04d", i))
 	}
-	for i := 0; i < core.Pick(8, 600); i++ {
-		names = append(names, fmt.Sprintf("store/%d", i))
+	for i := 0; i < core.Pick(8, 120); i++ {
+		names = append(names, fmt.Sprintf("store/%04d", i))
 	}
 	return names
 }
@@ -1202,7 +1231,7 @@ func runCase(t *testing.T, out sink, p *pool, name string) {
 	case strings.HasPrefix(name, "tiny/"):
 		// 1..6 candidate keys, every key a subject, every other key claimed: minimal witnesses come from here
 		fmt.Sscanf(name, "tiny/%d", &i)
-		sz := sizes{crossKeys: 8, families: core.Pick(10, 0), flips: core.Pick(4, 24)}
+		sz := sizes{crossKeys: 8, families: core.Pick(10, 20), flips: core.Pick(4, 8)}
 		if i%3 == 2 {
 			e.storeCase(t, p, rng, storeParams{uniSize: 2 + i%4, blocks: 2, keysPerVersion: 4, advSubjects: 1, sz: sz})
 			return
@@ -1214,11 +1243,11 @@ func runCase(t *testing.T, out sink, p *pool, name string) {
 		e.smtCase(t, p, rng, smtParams{nbits: nb, uniSize: 2 + i%5, rounds: 1 + i%2, subjectsPerRound: core.Pick(3, 6), sz: sz})
 	case strings.HasPrefix(name, "smt/"):
 		nbits := []int{160, 160, 160, 8, 12, 16}[rng.Intn(6)]
-		e.smtCase(t, p, rng, smtParams{nbits: nbits, uniSize: 12 + rng.Intn(100), rounds: 2 + rng.Intn(3), subjectsPerRound: core.Pick(2, 4),
-			sz: sizes{crossKeys: core.Pick(14, 40), families: core.Pick(12, 0), flips: core.Pick(6, 40)}})
+		e.smtCase(t, p, rng, smtParams{nbits: nbits, uniSize: 12 + rng.Intn(100), rounds: 2 + rng.Intn(3), subjectsPerRound: core.Pick(2, 3),
+			sz: sizes{crossKeys: core.Pick(14, 30), families: core.Pick(12, 25), flips: core.Pick(6, 12)}})
 	case strings.HasPrefix(name, "store/"):
 		e.storeCase(t, p, rng, storeParams{uniSize: 10 + rng.Intn(70), blocks: 3 + rng.Intn(3), keysPerVersion: core.Pick(4, 8), advSubjects: core.Pick(1, 2),
-			sz: sizes{crossKeys: core.Pick(12, 30), families: core.Pick(10, 0), flips: core.Pick(4, 30)}})
+			sz: sizes{crossKeys: core.Pick(12, 24), families: core.Pick(10, 25), flips: core.Pick(4, 12)}})
 	}
 }
 
@@ -1286,6 +1315,8 @@ func TestChild(t *testing.T) {
 		runCase(t, rec, p, name)
 		rec.Done = append(rec.Done, name)
 	}
+	// measured, not judged: what the verifier leaves behind (it never closes the in-memory store it opens)
+	rec.Count("goroutines_alive_at_child_exit", int64(runtime.NumGoroutine()))
 	bz, err := json.Marshal(rec)
 	if err != nil {
 		t.Fatalf("marshal record: %v", err)
